@@ -86,6 +86,7 @@ func runCheck(opts checkOpts) int {
 	obls = append(obls, p.generate("")...)
 	obls = append(obls, p.disciplineObligations()...)
 	obls = append(obls, p.toolObligations(opts)...)
+	obls = append(obls, p.conformanceObligations(opts)...)
 	genS := time.Since(t0).Seconds()
 	var sel []*Obligation
 	for _, o := range obls {
@@ -137,7 +138,11 @@ func runCheck(opts checkOpts) int {
 			}
 			continue
 		}
-		nObl++
+		if o.Kind != "audit" {
+			nObl++
+		} else {
+			p.quickAudits = append(p.quickAudits, map[string]interface{}{"audit": o.Name, "clause": o.Clause, "passed": o.ok(), "detail": o.Reason, "label": "bounded audit of an assumption, not proof"})
+		}
 		solverTime += o.Result.TimeS
 		if o.Result.Status == "disagree" {
 			fmt.Printf("bipverif: solver disagreement on %s\n", o.Name)
@@ -145,7 +150,9 @@ func runCheck(opts checkOpts) int {
 			continue
 		}
 		if o.ok() {
-			nDis++
+			if o.Kind != "audit" {
+				nDis++
+			}
 			perBackend[o.Result.Solver]++
 			continue
 		}
